@@ -5,13 +5,226 @@
 //! The crash-point quantifier of C02 is covered by C01, which runs the same audit on every
 //! recovered state.
 
+use anda_db::schema::Fv;
 use std::sync::Arc;
 use v_db::audit::{AuditCtx, audit};
 use v_db::driver::{Driver, GenCfg, Op, Step, gen_op};
-use v_db::{Cfg, IndexSet};
+use v_db::{Cfg, FDoc, IndexSet, Model, Patch, apply_patch, gen_doc, text_array};
+use vcore::manual::{Chooser, DfsChooser, ManualExec, RandChooser, Stuck};
 use vcore::recstore::RecStore;
 use vcore::run::block_on;
 use vcore::{Rng, Run, Stats, json};
+
+// ---------------------------------------------------------------------------------------------
+// pairs: the quiescent point AFTER two overlapping calls on one live handle. Two calls whose
+// outcome does not depend on their order (update of document 1 against its removal; two updates
+// of document 1 over disjoint fields; a fresh add against the removal of another document; any of
+// them against a flush) are interleaved at every backend call - and, in half of the cases, also
+// between the response of a backend read and what the call does with it - under DFS within a
+// budget, random beyond. When both have returned every index must agree with the stored
+// documents (the audit against the model resolved from the two results).
+
+#[derive(Clone, Debug)]
+enum POp {
+    Update(u64, Patch),
+    Remove(u64),
+    Add(FDoc),
+    Flush,
+}
+
+#[derive(Debug)]
+enum PRes {
+    Updated,
+    Removed(bool),
+    Added(u64),
+    Flushed,
+    Err(String),
+}
+
+struct PairCase {
+    cfg: Cfg,
+    set: IndexSet,
+    initial: Vec<FDoc>,
+    ops: Vec<POp>,
+    post_reads: bool,
+    shape: &'static str,
+}
+
+fn gen_pair(case: u64, rng: &mut Rng) -> PairCase {
+    let cfg = Cfg { cache: rng.bool(), compress: *rng.pick(&[0, 3]), bucket: *rng.pick(&[64usize, 1 << 20]) };
+    let set = if rng.chance(2, 3) { IndexSet::ALL } else { IndexSet(rng.below(512) as u16) };
+    let mut initial = vec![];
+    for i in 0..3 {
+        let mut d = gen_doc(rng, 1 << 40);
+        d.uname = format!("init{i}");
+        d.codes = vec![format!("ci{i}")];
+        d.grp = "gi".into();
+        d.slot = i as u64;
+        initial.push(d);
+    }
+    // every indexed field of document 1 moves
+    let moved = gen_doc(rng, 1 << 40);
+    let mut all = Patch::new();
+    all.insert("uname".into(), Fv::Text("moved".into()));
+    all.insert("age".into(), Fv::U64(77_777));
+    all.insert("tags".into(), text_array(&["tmoved".to_string()]));
+    all.insert("codes".into(), text_array(&["cmoved".to_string(), "cmoved2".to_string()]));
+    all.insert("body".into(), Fv::Text(moved.body.clone()));
+    all.insert("embedding".into(), Fv::Vector(moved.embedding.clone()));
+    all.insert("grp".into(), Fv::Text("gmoved".into()));
+    let mut left = Patch::new();
+    left.insert("uname".into(), Fv::Text("moved".into()));
+    left.insert("age".into(), Fv::U64(77_777));
+    left.insert("body".into(), Fv::Text(moved.body.clone()));
+    let mut right = Patch::new();
+    right.insert("codes".into(), text_array(&["cmoved".to_string()]));
+    right.insert("tags".into(), text_array(&["tmoved".to_string()]));
+    right.insert("grp".into(), Fv::Text("gmoved".into()));
+    right.insert("embedding".into(), Fv::Vector(moved.embedding.clone()));
+    let mut fresh = gen_doc(rng, 1 << 40);
+    fresh.uname = "fresh".into();
+    fresh.codes = vec!["cfresh".into()];
+    fresh.grp = "gfresh".into();
+    let (shape, ops) = match case % 5 {
+        0 => ("update|remove", vec![POp::Update(1, all), POp::Remove(1)]),
+        1 => ("remove|update", vec![POp::Remove(1), POp::Update(1, all)]),
+        2 => ("update|update(disjoint)", vec![POp::Update(1, left), POp::Update(1, right)]),
+        3 => ("add|remove(other)", vec![POp::Add(fresh), POp::Remove(2)]),
+        _ => ("update|remove|flush", vec![POp::Update(1, all), POp::Remove(1), POp::Flush]),
+    };
+    PairCase { cfg, set, initial, ops, post_reads: rng.bool(), shape }
+}
+
+async fn run_pair(pc: &PairCase, chooser: &mut dyn Chooser, st: &mut Stats) -> Option<Vec<usize>> {
+    let store = RecStore::new();
+    store.set_record_reads(false);
+    let mut d = match Driver::start(Arc::new(store.clone()), pc.cfg, pc.set).await {
+        Ok(d) => d,
+        Err(e) => {
+            st.violation("C02/pairs/setup_failed", json!(format!("{e:?}")));
+            return None;
+        }
+    };
+    for doc in &pc.initial {
+        if !matches!(d.step(&Op::Add(doc.clone()), st).await, Step::Applied) {
+            st.inconclusive("harness: initial document rejected (pairs)");
+            return None;
+        }
+    }
+    let _ = d.step(&Op::Flush, st).await;
+    store.set_gate(true);
+    store.set_gate_after_reads(pc.post_reads);
+    let coll = d.coll.clone();
+    let mut ex: ManualExec<'_, PRes> = ManualExec::new();
+    for op in &pc.ops {
+        let (coll, op) = (coll.clone(), op.clone());
+        ex.spawn(async move {
+            match op {
+                POp::Update(id, p) => coll.update(id, p).await.map(|_| PRes::Updated).unwrap_or_else(|e| PRes::Err(format!("{e:?}"))),
+                POp::Remove(id) => coll.remove(id).await.map(|r| PRes::Removed(r.is_some())).unwrap_or_else(|e| PRes::Err(format!("{e:?}"))),
+                POp::Add(doc) => coll.add_from(&doc).await.map(PRes::Added).unwrap_or_else(|e| PRes::Err(format!("{e:?}"))),
+                POp::Flush => coll.flush(anda_db::unix_ms()).await.map(|_| PRes::Flushed).unwrap_or_else(|e| PRes::Err(format!("{e:?}"))),
+            }
+        });
+    }
+    let r = ex.run(chooser, 6000, |_, _, _| {});
+    store.set_gate(false);
+    store.set_gate_after_reads(false);
+    let trace = ex.trace.clone();
+    let describe: Vec<String> = (0..pc.ops.len()).map(|i| format!("{} -> {:?}", brief(&pc.ops[i]), ex.result(i))).collect();
+    match r {
+        Ok(()) => {}
+        Err(Stuck::Deadlock(t)) => {
+            st.violation("C02/pairs/deadlock", json!({"blocked_tasks": t, "schedule": trace, "ops": describe, "shape": pc.shape}));
+            return None;
+        }
+        Err(Stuck::StepCap) => {
+            st.inconclusive("C02 pairs: step cap reached");
+            return None;
+        }
+    }
+    // the model follows the results; the pairs are built so that the results determine it
+    let mut model: Model = d.model.clone();
+    let mut removed = vec![];
+    for (i, op) in pc.ops.iter().enumerate() {
+        match (op, ex.result(i).unwrap()) {
+            (POp::Update(id, p), PRes::Updated) => {
+                if let Some(cur) = model.docs.get(id) {
+                    let n = apply_patch(cur, p).unwrap();
+                    model.docs.insert(*id, n);
+                }
+            }
+            // the update lost the document to the removal
+            (POp::Update(..), PRes::Err(e)) if e.contains("NotFound") || e.contains("not found") => st.count("pairs_update_after_remove"),
+            (POp::Remove(id), PRes::Removed(true)) => removed.push(*id),
+            (POp::Add(doc), PRes::Added(id)) => {
+                let mut n = doc.clone();
+                n._id = *id;
+                model.docs.insert(*id, n);
+            }
+            (POp::Flush, PRes::Flushed) => {}
+            (_, res) => {
+                st.violation("C02/pairs/unexpected_result", json!({"result": format!("{res:?}"), "schedule": trace, "ops": describe, "shape": pc.shape}));
+                return None;
+            }
+        }
+    }
+    for id in removed {
+        model.docs.remove(&id);
+    }
+    drop(ex);
+    st.count("pairs_schedules");
+    st.count(&format!("pairs_shape:{}", pc.shape));
+    if pc.post_reads {
+        st.count("pairs_schedules_with_post_read_parking");
+    }
+    let ctx = || json!({"monitor": "pairs", "shape": pc.shape, "schedule": trace, "ops": describe, "cfg": format!("{:?}", pc.cfg), "post_reads": pc.post_reads});
+    if !audit(&coll, &model, pc.set, st, &AuditCtx { sig: "C02/pairs/quiescent", ctx: &ctx }).await {
+        return None;
+    }
+    Some(trace)
+}
+
+fn brief(op: &POp) -> String {
+    match op {
+        POp::Update(id, p) => format!("update({id},{:?})", p.keys().collect::<Vec<_>>()),
+        POp::Remove(id) => format!("remove({id})"),
+        POp::Add(d) => format!("add(uname={})", d.uname),
+        POp::Flush => "flush".into(),
+    }
+}
+
+fn pair_case(case: u64, rng: &mut Rng, st: &mut Stats, budget: u64) {
+    let pc = gen_pair(case, rng);
+    block_on(async {
+        let mut dfs = DfsChooser::new();
+        let mut runs = 0u64;
+        let mut exhausted = false;
+        loop {
+            dfs.begin_run();
+            let Some(trace) = run_pair(&pc, &mut dfs, st).await else { return };
+            runs += 1;
+            st.eval();
+            st.set("pairs_distinct_schedules", vcore::hash_debug(&trace) ^ case.wrapping_mul(0x9e3779b97f4a7c15));
+            if !dfs.next_run() {
+                exhausted = true;
+                break;
+            }
+            if runs >= budget {
+                break;
+            }
+        }
+        st.count(if exhausted { "pairs_schedule_spaces_exhausted" } else { "pairs_schedule_spaces_truncated" });
+        if !exhausted {
+            let mut rc = RandChooser(rng.fork());
+            for _ in 0..budget / 2 {
+                let Some(trace) = run_pair(&pc, &mut rc, st).await else { return };
+                st.eval();
+                st.set("pairs_distinct_schedules", vcore::hash_debug(&trace) ^ case.wrapping_mul(0x9e3779b97f4a7c15));
+            }
+        }
+    });
+}
 
 fn case(case: u64, rng: &mut Rng, st: &mut Stats, n_ops: usize) {
     let cfg = Cfg::random(rng);
@@ -94,8 +307,16 @@ fn main() {
         v_db::crash::set_deadline_in(run.time_left().mul_f64(0.35));
         run.parallel("crash", t.pick(64, 800), 0.3, |c, rng, st| v_db::crash::case(c, rng, st, t));
     }
+    if run.wants("pairs") {
+        run.parallel("pairs", t.pick(160, 3000), 0.2, |c, rng, st| pair_case(c, rng, st, t.pick(100, 400)));
+    }
     if run.wants("histories") {
         run.parallel("histories", t.pick(6000, 400000), 0.95, |c, rng, st| case(c, rng, st, 25 + (c % 16) as usize));
+    }
+    run.floor("pairs_schedules", 1000);
+    run.floor("pairs_schedules_with_post_read_parking", 300);
+    for sh in ["update|remove", "remove|update", "update|update(disjoint)", "add|remove(other)", "update|remove|flush"] {
+        run.floor(&format!("pairs_shape:{sh}"), 100);
     }
     run.floor("audits", 2000);
     run.floor("recovered_states_audited", 500);
